@@ -19,6 +19,16 @@ CLAIMS = {
         technique='Verus function contracts against a reference step function, on extracted code',
         design='5 C01',
     ),
+    'C02': dict(
+        text=('Unbounded deductive proof (Verus) of the restart path RaftLog::open on extracted code: every chunk id returned by the directory listing is gap-checked (ensure_consecutive_chunks: Err iff prev_end != id) '
+              'BEFORE it is opened; every record of every chunk is applied through the same RaftLogStateMachine::apply contract the live path uses, with chunk id and segment (offsets[i], offsets[i+1]-offsets[i]); '
+              'the healthy newest chunk is reused for appends iff it was not truncated, otherwise a fresh chunk is created exactly at the previous end with State(current state) as head; '
+              'the returned store satisfies the invariants every write operation needs and preserves (Inv_Cache, I7, wal_safe, Inv_WAL: loaded chunks keyed by start, non-empty, abutting). '
+              'What is NOT decided: that the replayed state equals the state before closing (needs the journal-on-disk == journal-written link, i.e. C04+C11+file-system semantics, and the completeness half of the codec).'),
+        note=TRUST + ' ENVIRONMENT ASSUMPTION inside the replay loop (an explicit `assume`, listed in the evidence): each replayed record was accepted when it was journaled and magnitudes hold. load_chunk_ids, RaftLogWAL::new (thread spawn) are assumed contracts.',
+        technique='Verus loop invariants over the chunk-loading loop + shared apply contract, on extracted code',
+        design='5 C02',
+    ),
     'C04': dict(
         text=('Unbounded deductive proof (Verus) of the flush worker against a ghost effect trace (Write/Sync/SetEvictable/Ack/Unlink events spliced mechanically after every effectful call, rule E9): '
               'history invariant "every successful Ack event is preceded by a state with no file written-and-not-synced" (acks_sound), "every file holding unsynced data is still tracked" (covered), '
@@ -28,6 +38,15 @@ CLAIMS = {
         note=TRUST + ' Assumed: write_all/sync_data semantics (a successful fdatasync makes all earlier writes to that file durable), FIFO channel, message invariant "every Write has sync == true" (proved on the sender in U5, assumed at recv), rule E7 desugaring of try_iter().take(n) and iter().any(). Liveness (every sent request is eventually processed) is not decided.',
         technique='Verus history invariant over a ghost effect trace, on extracted code',
         design='5 C04',
+    ),
+    'C05': dict(
+        text=('Partial, as stated in DESIGN: only the clause "recovery never panics" is decided. Unbounded deductive proof (Verus) of every safety obligation (overflow, bounds, unwrap, std preconditions) in RaftLog::open, Chunk::open, '
+              'handle_record_error, verify_trailing_zeros, RecordIterator::next, OffsetReader::read, reopen_last_closed, ensure_consecutive_chunks and the chunk getters they call, for EVERY file content (ghost byte sequence), '
+              'every read_buffer_size and both truncate settings. One obligation is red and recorded as KNOWN FINDING D10: a loaded chunk with no complete record reaches Chunk::last_segment (panic). '
+              'Rotation order (new chunk created and its head written on the caller thread before the old tail is queued) is proved under C11. That open returns Ok after every crash is NOT decided (crash points x schedules).'),
+        note=TRUST + ' Magnitudes: chunk files < 2^62 bytes, file-name offsets < 2^62. Replayed records are assumed accepted (see C02).',
+        technique='Verus safety obligations over a ghost file content, on extracted code',
+        design='5 C05',
     ),
     'C06': dict(
         text=('Unbounded deductive proof (Verus): RaftLog::append_and_apply has the postcondition "record not accepted by the reference => Err and *final(self) == *old(self)" '
@@ -54,6 +73,25 @@ CLAIMS = {
         technique='Verus history invariant over a ghost effect trace + sent-message order, on extracted code',
         design='5 C08',
     ),
+    'C09': dict(
+        text=('Unbounded deductive proof (Verus): decision table of handle_record_error (truncate only if enabled AND (UnexpectedEof OR tail all zeros); otherwise the error is returned; never Ok(false)); '
+              'Chunk::open stops at the first error and, when it did not truncate, every byte of the file was consumed by successful decodes; RecordIterator::next yields nothing after an error and stops exactly at the file size; '
+              'WALRecord::decode returns Ok only for bytes whose checksum matches (soundness: consumed bytes == enc(record)), unknown tag/version/checksum mismatch are InvalidData; ensure_consecutive_chunks: Err iff gap, called for every chunk. '
+              'KNOWN FINDING D11: a non-newest chunk may be truncated before the refused open. Not decided: D12 (length-prefix corruption looks like an incomplete tail; inherent to the format).'),
+        note=TRUST + ' Assumed: CRC-32 detects the alterations the property ranges over (crc is uninterpreted); codeq/byteorder/user codec contracts.',
+        technique='Verus decision-table and loop contracts over a ghost file content, on extracted code',
+        design='5 C09',
+    ),
+    'C10': dict(
+        text=('Unbounded deductive proof (Verus) over an arbitrary ghost file content F: Chunk::open returns records rs and offsets with F.take(n) == enc(r1)..enc(rk), offsets[k] == id + |enc(r1..rk)|, '
+              'truncated == None => n == |F| and no file-system event; truncated == Some(|F|) => truncation enabled and exactly [SetLen(n), SyncAll] happened; truncation disabled => no SetLen/SyncAll event on any exit; '
+              'verify_trailing_zeros answers exactly "all bytes from start are zero" (loop invariant, short reads, termination); handle_record_error: UnexpectedEof + enabled => truncate; disabled => Err; '
+              'RaftLog::open creates the fresh chunk exactly at the last complete record of a truncated newest chunk. '
+              'Not decided: maximality ("longest complete prefix") needs the completeness half of the codec; crc(0..0) != 0 is assumed.'),
+        note=TRUST + ' File content is the content at open time (recovery reads before it truncates); pread/BufReader contracts assumed; rule E7 desugars the two for-loops.',
+        technique='Verus loop invariants over a ghost file content + ghost event trace, on extracted code',
+        design='5 C10',
+    ),
     'C11': dict(
         text=('Unbounded deductive proof (Verus) of the journal arithmetic: append_record buffers exactly enc(rec) and pushes end+|enc(rec)|; the segment returned by a write is '
               '(old end, |enc(rec)|) also when the write triggers a rotation (defect D14, fixed); a chunk is closed iff records >= max_records or size >= max_size right after the write; '
@@ -62,6 +100,23 @@ CLAIMS = {
         note=TRUST + ' File effects are uninterpreted events of assumed std contracts. The file-name codec (chunk_file_name/parse_chunk_file_name, format!/str) is not under contract. Worker-side placement of writes is part of C04 (unit U7).',
         technique='Verus function contracts over offset/segment arithmetic and sent-message ghost history, on extracted code',
         design='5 C11',
+    ),
+    'C12': dict(
+        text=('Unbounded deductive proof (Verus) on the four codec functions extracted from the working tree, generic in the reader/writer and in T: Types: WALRecord::encode and RaftLogState::encode append exactly enc(self) '
+              '(tag, fields in declaration order, checksum of tag+fields / version byte 1 and the five optional fields) and report its length; WALRecord::decode and RaftLogState::decode are sound: Ok(v) => the bytes consumed are exactly enc(v), '
+              'nothing beyond is consumed, the reader position advances by |enc(v)|; no arithmetic overflow or panic in any of them (decode of arbitrary bytes is total). '
+              'Not decided in this revision: completeness (decode(enc(v)) == Ok(v)), hence the round trip itself rests on (S) + the assumed injectivity of the field codecs.'),
+        note=TRUST + ' Assumed dependency contracts: codeq u8/Option codecs and ChecksumReader/Writer, byteorder read_/write_u32, the user codecs of LogId/Vote/Payload/UserData (sound, lengths < 2^56); readers/writers by-value with prophecy variables.',
+        technique='Verus contracts against a spec encoding function, prophecy-based reader/writer stand-ins, on extracted code',
+        design='5 C12',
+    ),
+    'C13': dict(
+        text=('Unbounded deductive proof (Verus) of the code side of single ownership: FileLock::new returns Ok only after try_lock_exclusive succeeded on the LOCK file of that directory (lock_held), and the handle is stored in the owner; '
+              'RaftLog::open and Dump::new call it first: every later directory operation in open (directory listing, Chunk::open incl. set_len, chunk creation) has the precondition lock_held(dir), a fact that only exists after the successful lock call, '
+              'so the lock is provably acquired before anything is read, truncated or created, and a failed lock returns Err before any of them.'),
+        note=TRUST + ' Assumed: flock gives mutual exclusion across threads and processes and is released on unlock/close (kernel); Drop for FileLock is not under contract.',
+        technique='Verus happens-before via postcondition-established facts required by later calls, on extracted code',
+        design='5 C13',
     ),
     'C15': dict(
         text=('Unbounded deductive proof (Verus) on the PayloadCache methods extracted from the working tree on every run: '
